@@ -1,11 +1,12 @@
 // C11 harness.
-//  read:  the real journal iterator (journal.NewJIterator, what cursors and pipe workers read with) is read to its
-//         end in rounds over the real journal of an in-process server, with the chunk objects interposed so that
-//         every look at the confirmed count is recorded and appends+flushes can be injected between two looks.
-//  wait:  Query with WaitTimeout at the end of one / several partitions on the real server; the write is injected
-//         at a protocol point (schedule hook before Chunks().WaitForNewData); oracle: the event is returned well
-//         before the time-out; nothing written => empty after the time-out.
-//  rearm: a pipe worker whose 10 s wait expires with a notification pending.
+//
+//	read:  the real journal iterator (journal.NewJIterator, what cursors and pipe workers read with) is read to its
+//	       end in rounds over the real journal of an in-process server, with the chunk objects interposed so that
+//	       every look at the confirmed count is recorded and appends+flushes can be injected between two looks.
+//	wait:  Query with WaitTimeout at the end of one / several partitions on the real server; the write is injected
+//	       at a protocol point (schedule hook before Chunks().WaitForNewData); oracle: the event is returned well
+//	       before the time-out; nothing written => empty after the time-out.
+//	rearm: a pipe worker whose 10 s wait expires with a notification pending.
 package main
 
 import (
@@ -74,9 +75,9 @@ type Inject struct {
 }
 
 type ReadCase struct {
-	N0      int      `json:"n0"`     // records readable at the start
-	P0      int      `json:"p0"`     // start position
-	Rounds  int      `json:"rounds"` // read-to-end rounds
+	N0      int      `json:"n0"`      // records readable at the start
+	P0      int      `json:"p0"`      // start position
+	Rounds  int      `json:"rounds"`  // read-to-end rounds
 	Between []int    `json:"between"` // records appended+flushed after round i (a wake by a flush)
 	Inj     []Inject `json:"inj"`
 }
